@@ -1,6 +1,45 @@
 /-
-  Property C08 — property theorems only (helper lemmas live next to the model).
-  Stub: nothing claimed yet.
+  Property C08 — Future / Promise / CountDownLatch: the value reaches every waiter and callback
+  exactly once.  Property theorems only; the model is Babylon/Future/Model.lean, helper lemmas and
+  invariants live in Babylon/Future/Lemmas*.lean.
 -/
+import Babylon.Future.Model
+
 namespace Babylon.Properties.C08
+open Babylon.Future Babylon.Gen.Future Babylon.Core
+
+/-! ## Generated obligations: the current /repo source is the one the model was written against -/
+
+theorem gen_skel_set_value : skel_set_value = Skel.set_value := by decide
+theorem gen_skel_seal : skel_seal = Skel.seal := by decide
+theorem gen_skel_get : skel_get = Skel.get := by decide
+theorem gen_skel_wait_for : skel_wait_for = Skel.wait_for := by decide
+theorem gen_skel_on_finish : skel_on_finish = Skel.on_finish := by decide
+theorem gen_skel_wait_slow : skel_wait_slow = Skel.wait_slow := by decide
+theorem gen_skel_wait_for_slow : skel_wait_for_slow = Skel.wait_for_slow := by decide
+theorem gen_skel_promise_set_value : skel_promise_set_value = Skel.promise_set_value := by decide
+theorem gen_skel_future_ready : skel_future_ready = Skel.future_ready := by decide
+theorem gen_skel_count_down : skel_count_down = Skel.count_down := by decide
+theorem gen_skel_latch_ctor : skel_latch_ctor = Skel.latch_ctor := by decide
+
+/-- constants and branch shapes: READY is bit 31 of a 32-bit word, SEALED is the all-ones pointer,
+waiters add exactly one, the setter wakes iff the old word was non-zero, the clamp and the expiry
+test of `wait_for` are at zero, the latch fires at zero with value 0. -/
+theorem gen_constants :
+    readyMask = 2 ^ 31 ∧ sealedHead = 2 ^ 64 - 1 ∧ sizeofFutexWord = 4 ∧ sizeofHead = 8 ∧ sizeofCount = 8 ∧
+    futexNeedCreate = 0 ∧ wakeIfWaitersAbove = 0 ∧
+    waitAddOperand = 1 ∧ waitAddLocalBump = 1 ∧ waitForAddOperand = 1 ∧ waitForAddLocalBump = 1 ∧
+    timeoutExpiredAtMost = 0 ∧ timeoutClampLow = 0 ∧ waitForSlowFinal = true ∧ waitForFast = true ∧
+    latchFireAt = 0 ∧ latchValue = 0 := by decide
+
+/-- the orders publication rests on: the seal releases and acquires, the READY exchange releases,
+every load / RMW through which a reader learns "ready" acquires, the registration CAS releases on
+success and acquires on failure, the latch decrement is acq_rel. -/
+theorem gen_orders :
+    ordSeal.releases = true ∧ ordSeal.acquires = true ∧ ordFutexXchg.releases = true ∧
+    ordGetLoad.acquires = true ∧ ordWaitForLoad.acquires = true ∧ ordWaitAdd.acquires = true ∧
+    ordWaitLoad.acquires = true ∧ ordWaitForAdd.acquires = true ∧ ordWaitForSlowLoad.acquires = true ∧
+    ordRegLoad.acquires = true ∧ ordRegCasSucc.releases = true ∧ ordRegCasFail.acquires = true ∧
+    ordFutureReady.acquires = true ∧ ordCountSub.releases = true ∧ ordCountSub.acquires = true := by decide
+
 end Babylon.Properties.C08
